@@ -60,6 +60,8 @@ def check_text(ctx, T, label, case, canonical, emitted_ast=None):
     ast.Visit(visitors.VerifyVisitor())
   except Exception as e:  # pylint: disable=broad-except
     raise Violation("emitted-stub-fails-verifier", "%s: %r" % (label, e), case)
+  from props import progs_c05
+  progs_c05.compare_shapes(ctx, T, ast, label + "-text-vs-reread", case)
   P = pytd_utils.Print(ast)
   nt = nontrivial(T)
   ctx.case(key=T, nontrivial=nt, sample=(label + ":\n" + T[:600]) if nt else
@@ -80,9 +82,21 @@ def check_text(ctx, T, label, case, canonical, emitted_ast=None):
       C = parser.canonical_pyi(T, options=pt.pyi_options())
     except Exception as e:  # pylint: disable=broad-except
       raise Violation("canonical_pyi-raises", "%s: %r" % (label, e), case)
-    ctx.check(C == T, "canonical_pyi-not-fixed-point",
-              "%s: canonical_pyi(T) != T\n--- T\n%s\n--- canonical\n%s" %
-              (label, T[:1200], C[:1200]), case)
+    if C != T:
+      # Not asserted: the property asks for a parse-then-print fixed point.
+      # canonical_pyi re-sorts union members, and the sort key depends on the
+      # node class (ClassType in the emitted AST, NamedType after re-reading),
+      # so 'Union[float, dict[int, int]]' is legitimately re-ordered.
+      ctx.event("note:canonical_pyi-reorders-emitted-stub")
+    # canonical_pyi must itself be idempotent and parseable
+    try:
+      C2 = parser.canonical_pyi(C, options=pt.pyi_options())
+    except Exception as e:  # pylint: disable=broad-except
+      raise Violation("canonical_pyi-output-not-readable", "%s: %r" % (label, e),
+                      case)
+    ctx.check(C2 == C, "canonical_pyi-not-idempotent",
+              "%s: canonical_pyi(canonical_pyi(T)) != canonical_pyi(T)" % label,
+              case)
   if emitted_ast is not None:
     # the re-read declarations equal what was printed
     want = emitted_ast.Visit(visitors.ClassTypeToNamedType())
@@ -99,12 +113,17 @@ def part_b(ctx, n):
   def body(T0):
     case = {"kind": "B", "text": T0}
     try:
-      T = pt.Print(pt.parse(T0, None))
+      ast0 = pt.parse(T0, None)
+      T = pt.Print(ast0)
     except Exception as e:  # pylint: disable=broad-except
       # the generator promises parseable text: a failure here is a harness
       # problem, not a property violation
       ctx.event("harness:generated-stub-rejected:" + type(e).__name__)
       return
+    # the reader keeps what the text declares (independent reading of the
+    # same text by Python's own ast module)
+    from props import progs_c05
+    progs_c05.compare_shapes(ctx, T0, ast0, "B-generated-text", case)
     check_text(ctx, T, "B", case, canonical=False)
 
   hyp_run(ctx, gen_pyi.stub(), body, n, label="B")
@@ -116,11 +135,11 @@ def run_shard(ctx):
   boot.ensure()
   part_b(ctx, 90 if ctx.quick() else 8000)
   try:
-    from props import c05_programs
+    from props import progs_c05
   except ImportError:
-    c05_programs = None
-  if c05_programs:
-    c05_programs.run(ctx, check_text)
+    progs_c05 = None
+  if progs_c05:
+    progs_c05.run(ctx, check_text)
 
 
 def replay(ctx, case):
@@ -128,5 +147,5 @@ def replay(ctx, case):
     T = pt.Print(pt.parse(case["text"], None))
     check_text(ctx, T, "B", case, canonical=False)
   else:
-    from props import c05_programs
-    c05_programs.replay(ctx, case, check_text)
+    from props import progs_c05
+    progs_c05.replay(ctx, case, check_text)
